@@ -95,6 +95,13 @@ def gen_layout(rng, depth=2):
             stmts.append(("op", rng.choice(GATES), [rng.choice(["0.1", "2"])] + (["{%s}" % params[0]] if params else []), [m]))
         for q in params[1:]:
             stmts.append(("op", "Rgate", ["{%s}" % q], [modes[0]]))
+        others = [o for o in order[:nleaf] if o not in uses]
+        if others and rng.random() < 0.35:
+            # a plain (native) operation that merely has the NAME of a program which this file does not include (but a
+            # file including this one may): included files see only their own includes
+            o = rng.choice(others)
+            k = min(len(subs[o].modes), len(modes))
+            stmts.append(("op", o, [], rng.sample(modes, k)))
         rng.shuffle(stmts)
         subs[name] = Sub(name, os.path.join(rng.choice(dirs), name + ".xbb"), modes, params, stmts, uses)
         order.append(name)
